@@ -57,6 +57,12 @@ def abstract_path(rng):
             ops.append(('raw', 'M204 S%d' % rng.randint(500, 2000)))
         elif k < 0.9:
             ops.append(('raw', 'M117 hello'))
+        elif k < 0.96:
+            # equal travel steps: in the relative encoding these are the same line several times
+            sx, sy = F(rng.randint(-3, 3)), F(rng.randint(-3, 3))
+            for _s in range(rng.randint(2, 4)):
+                x, y = x + sx, y + sy
+                ops.append(('move', dict(x=x, y=y)))
     regs = []
     for (cx, cy) in cs:
         if rng.random() < 0.7:
